@@ -5,20 +5,28 @@ import Postcard.Lemmas.Conforms
   Model
   * Model/CallTree.lean     `CT` (serde calls with the names handed in), `CT.erase`,
                             `CT.wfVal`, `ctSchema` (call tree of a schema value);
-  * Model/SchemaImpls.lean  `RTy` (the Rust types with both impls), `schemaOf`
-                            (the `Schema` impl tables and `#[derive(Schema)]`),
+  * Model/SchemaImpls.lean  `RTy` (the Rust types with both impls), `schemaOf repaired`
+                            (the `Schema` impl tables and `#[derive(Schema)]`;
+                            `repaired = true`: the current derive, `false`: the
+                            derive before the raw-identifier repair),
                             `callTree` (serde's / serde_derive's / heapless' /
                             uuid's / chrono's / nalgebra's `Serialize`: MODELLED),
-                            `RTy.wf` (scope).
+                            `RTy.wf` (scope), `RTy.namesOk` (name restriction
+                            needed by the unrepaired derive only).
   Specification
   * Spec/Conforms.lean      `conforms`, `schemaParse` / `schemaRead`.
 
   Results
-  * `schema_conforms_partial`  every impl, every value: the call tree conforms to
-                               the declared schema — EXCEPT derived types that use a
-                               raw identifier (`r#type`) as a field or variant name;
+  * `schema_conforms`          every impl, every value: the call tree conforms to
+                               the declared schema.  FULL statement for the current
+                               (repaired) `#[derive(Schema)]`: `schemaOf true`; raw
+                               identifiers (`r#type`) are in scope;
+  * `schema_conforms_unrepaired_partial`  the derive BEFORE the repair
+                               (`schemaOf false`): the same, EXCEPT derived types that
+                               use a raw identifier as a field or variant name;
   * `raw_ident_not_conforms`, `raw_field_never_conforms`,
-    `raw_variant_not_conforms` the exception is real: FINDING;
+    `raw_variant_not_conforms` for the unrepaired derive the exception was real
+                               (the FINDING that led to the repair);
   * `schema_reader`, `schema_reader_bytes`  a reader that knows only the schema parses
                                every conforming encoding and consumes it exactly
                                (all kinds, including `.schema`);
@@ -29,34 +37,56 @@ namespace Postcard
 /-! ## 1. the schema of a type describes what its `Serialize` emits -/
 
 /-- C14 (conformance).  For every Rust type `r` that has both impls (`RTy`, in
-scope `RTy.wf`) and every value `v` of it, the serde call tree `c` that
-`Serialize` emits — kinds, field names and order, variant names and indices,
-arity, element types — conforms to `<r as Schema>::SCHEMA`.
+scope `RTy.wf`: tuple arity 1–6, array length ≤ 32) and every value `v` of it,
+the serde call tree `c` that `Serialize` emits — kinds, field names and order,
+variant names and indices, arity, element types — conforms to
+`<r as Schema>::SCHEMA` as declared by the current (repaired) derive,
+`schemaOf true`.
 
-PARTIAL: `RTy.wf` excludes derived structs/enums with a raw identifier as a
-field or variant name (`Ident.plain`), for which the statement is false
-(`raw_ident_not_conforms`). -/
-theorem schema_conforms_partial (r : RTy) (v : RV) (c : CT) (hwf : RTy.wf r = true)
-    (h : callTree r v = some c) : conforms c (schemaOf r) = true :=
-  sc_val r hwf v c h
+FULL: no condition on identifiers; derived structs / enums may use raw
+identifiers (`r#type`) as field, variant or type names. -/
+theorem schema_conforms (r : RTy) (v : RV) (c : CT) (hwf : RTy.wf r = true)
+    (h : callTree r v = some c) : conforms c (schemaOf true r) = true :=
+  sc_val true r hwf (RTy.namesOk_true r) v c h
 
 /-- tuples / unnamed fields, pointwise -/
 theorem schema_conforms_list (ts : List RTy) (vs : List RV) (cs : List CT)
     (hwf : RTy.wfList ts = true) (h : callTrees ts vs = some cs) :
-    conformsList cs (schemaOfList ts) = true :=
-  sc_list ts hwf vs cs h
+    conformsList cs (schemaOfList true ts) = true :=
+  sc_list true ts hwf (RTy.namesOkList_true ts) vs cs h
 
-/-! ### FINDING: raw identifiers
+/-- both derive versions at once: conformance holds whenever every field and
+variant identifier in `r` is named as serde_derive names it
+(`RTy.namesOk repaired`: vacuous for `repaired = true`, "no raw identifier" for
+`repaired = false`). -/
+theorem schema_conforms_of_namesOk (repaired : Bool) (r : RTy) (v : RV) (c : CT)
+    (hwf : RTy.wf r = true) (hn : RTy.namesOk repaired r = true)
+    (h : callTree r v = some c) : conforms c (schemaOf repaired r) = true :=
+  sc_val repaired r hwf hn v c h
 
-`#[derive(Schema)]` names fields and variants with `ident.to_string()`, which
-keeps the `r#` of a raw identifier; `#[derive(Serialize)]` uses the unraw'ed
-identifier.  Observed on the real crates (recording serializer):
+/-- the derive BEFORE the repair (`schemaOf false`).  PARTIAL: restricted to
+derive inputs without a raw identifier as a field or variant name
+(`RTy.namesOk false`, i.e. `Ident.plain` everywhere); outside that restriction
+the statement is false (`raw_ident_not_conforms`). -/
+theorem schema_conforms_unrepaired_partial (r : RTy) (v : RV) (c : CT) (hwf : RTy.wf r = true)
+    (hplain : RTy.namesOk false r = true) (h : callTree r v = some c) :
+    conforms c (schemaOf false r) = true :=
+  sc_val false r hwf hplain v c h
+
+/-! ### FINDING (repaired): raw identifiers
+
+Before the repair `#[derive(Schema)]` named fields and variants with
+`ident.to_string()`, which keeps the `r#` of a raw identifier;
+`#[derive(Serialize)]` uses the unraw'ed identifier.  Observed on the real
+crates (recording serializer) with the UNREPAIRED derive:
 `#[derive(Serialize, Schema)] struct Raw { r#type: u8, r#fn: u8 }`
   SCHEMA = Struct { name: "Raw", data: Struct([NamedField { name: "r#type", ty: U8 },
                                                NamedField { name: "r#fn", ty: U8 }]) }
   calls  = serialize_struct("Raw", 2); serialize_field("type", 1u8); serialize_field("fn", 2u8)
 `enum RawEn { r#type, r#Match(u8) }`: SCHEMA variant names "r#type", "r#Match";
-  calls = serialize_unit_variant("RawEn", 0, "type") / serialize_newtype_variant("RawEn", 1, "Match", _). -/
+  calls = serialize_unit_variant("RawEn", 0, "type") / serialize_newtype_variant("RawEn", 1, "Match", _).
+The derive now calls `.unraw()` on field and variant identifiers
+(`schemaOf true`); the three theorems below are about `schemaOf false`. -/
 
 /-- `struct Raw { r#type: u8, r#fn: u8 }` -/
 def C14.rawStruct : RTy :=
@@ -68,36 +98,37 @@ def C14.rawEnum : RTy :=
   .denum (.ofString "RawEn")
     [.mk ⟨true, ascii "type"⟩ .unit, .mk ⟨true, ascii "Match"⟩ (.unnamed [.uint .w8])]
 
-/-- the negation of conformance, on a concrete witness:
+/-- UNREPAIRED derive: the negation of conformance, on a concrete witness:
 `Raw { r#type: 1, r#fn: 2 }` serialises as a struct with fields "type", "fn";
-its schema says "r#type", "r#fn". -/
+its pre-repair schema says "r#type", "r#fn".  The witness is in scope
+(`RTy.wf`); what it violates is the name restriction `RTy.namesOk false`. -/
 theorem raw_ident_not_conforms :
-    schemaOf C14.rawStruct =
+    schemaOf false C14.rawStruct =
       .struct (ascii "Raw") (.struct [.mk (ascii "r#type") .u8, .mk (ascii "r#fn") .u8]) ∧
     callTree C14.rawStruct (.list [.nat 1, .nat 2]) =
       some (.struct (ascii "Raw") [ascii "type", ascii "fn"] [.u .w8 1, .u .w8 2]) ∧
     (∃ c, callTree C14.rawStruct (.list [.nat 1, .nat 2]) = some c ∧
-      conforms c (schemaOf C14.rawStruct) = false) ∧
-    RTy.wf C14.rawStruct = false := by
-  refine ⟨by rfl, by rfl, ⟨_, rfl, by decide⟩, by decide⟩
+      conforms c (schemaOf false C14.rawStruct) = false) ∧
+    RTy.wf C14.rawStruct = true ∧ RTy.namesOk false C14.rawStruct = false := by
+  refine ⟨by rfl, by rfl, ⟨_, rfl, by decide⟩, by decide, by decide⟩
 
-/-- the same for variant names: `RawEn::r#Match(1)`. -/
+/-- UNREPAIRED derive: the same for variant names: `RawEn::r#Match(1)`. -/
 theorem raw_variant_not_conforms :
-    schemaOf C14.rawEnum =
+    schemaOf false C14.rawEnum =
       .enum (ascii "RawEn") [.mk (ascii "r#type") .unit, .mk (ascii "r#Match") (.newtype .u8)] ∧
     callTree C14.rawEnum (.variant 1 [.nat 1]) =
       some (.newtypeVariant (ascii "RawEn") 1 (ascii "Match") (.u .w8 1)) ∧
     (∃ c, callTree C14.rawEnum (.variant 1 [.nat 1]) = some c ∧
-      conforms c (schemaOf C14.rawEnum) = false) ∧
-    RTy.wf C14.rawEnum = false := by
-  refine ⟨by rfl, by rfl, ⟨_, rfl, by decide⟩, by decide⟩
+      conforms c (schemaOf false C14.rawEnum) = false) ∧
+    RTy.wf C14.rawEnum = true ∧ RTy.namesOk false C14.rawEnum = false := by
+  refine ⟨by rfl, by rfl, ⟨_, rfl, by decide⟩, by decide, by decide⟩
 
-/-- not an accident of the witness: a struct whose FIRST field is a raw
-identifier conforms for NO value, whatever the field types. -/
+/-- UNREPAIRED derive: not an accident of the witness: a struct whose FIRST
+field is a raw identifier conforms for NO value, whatever the field types. -/
 theorem raw_field_never_conforms (sid : Ident) (fname : Name) (t : RTy) (fs : List DeriveField)
     (v : RV) (c : CT)
     (h : callTree (.dstruct sid (.named (.mk ⟨true, fname⟩ t :: fs))) v = some c) :
-    conforms c (schemaOf (.dstruct sid (.named (.mk ⟨true, fname⟩ t :: fs)))) = false := by
+    conforms c (schemaOf false (.dstruct sid (.named (.mk ⟨true, fname⟩ t :: fs)))) = false := by
   cases v <;> simp [callTree] at h
   rename_i vs
   simp [callData] at h
@@ -115,13 +146,43 @@ theorem raw_field_never_conforms (sid : Ident) (fname : Name) (t : RTy) (fs : Li
         rw [List.length_append, h2] at this
         omega
       simp [schemaOf, schemaOfFields, schemaOfNamed, Head.struct, serdeFieldNames, conforms,
-        conformsFields, Ident.schemaName, Ident.serdeName, hne]
+        conformsFields, Ident.schemaName, Ident.rawName, Ident.unrawName, Ident.serdeName, hne]
     · simp at hcs
 
-/-- the wire format carries no names, so the mismatch is invisible to a
-schema-driven reader: the bytes of the witness are still parsed exactly. -/
-example : schemaRead (schemaOf C14.rawStruct) ([1, 2] ++ [9]) =
+/-- the wire format carries no names, so the mismatch was invisible to a
+schema-driven reader: the bytes of the witness were still parsed exactly. -/
+example : schemaRead (schemaOf false C14.rawStruct) ([1, 2] ++ [9]) =
     .ok (.struct [.u .w8 1, .u .w8 2], [9]) := by rfl
+
+/-! ### the repaired derive on the former witnesses -/
+
+-- SCHEMA (repaired): Struct { name: "Raw", data: Struct([{ "type", U8 }, { "fn", U8 }]) }
+example : schemaOf true C14.rawStruct =
+    .struct (ascii "Raw") (.struct [.mk (ascii "type") .u8, .mk (ascii "fn") .u8]) := by rfl
+example : schemaOf true C14.rawEnum =
+    .enum (ascii "RawEn") [.mk (ascii "type") .unit, .mk (ascii "Match") (.newtype .u8)] := by rfl
+-- the former counterexamples DO conform under the repaired derive …
+example : (callTree C14.rawStruct (.list [.nat 1, .nat 2])).map
+    (conforms · (schemaOf true C14.rawStruct)) = some true := by decide
+example : ∀ v ∈ [RV.variant 0 [], .variant 1 [.nat 1]],
+    (callTree C14.rawEnum v).map (conforms · (schemaOf true C14.rawEnum)) = some true := by decide
+-- … and are instances of the full theorem
+example : conforms (.struct (ascii "Raw") [ascii "type", ascii "fn"] [.u .w8 1, .u .w8 2])
+    (schemaOf true C14.rawStruct) = true :=
+  schema_conforms C14.rawStruct (.list [.nat 1, .nat 2]) _ (by decide) (by rfl)
+example : conforms (.newtypeVariant (ascii "RawEn") 1 (ascii "Match") (.u .w8 1))
+    (schemaOf true C14.rawEnum) = true :=
+  schema_conforms C14.rawEnum (.variant 1 [.nat 1]) _ (by decide) (by rfl)
+example : RTy.wf C14.rawStruct = true ∧ RTy.wf C14.rawEnum = true := by decide
+-- a raw identifier as the TYPE name (`struct r#Type { r#fn: u8 }`): the type name keeps its
+-- `r#` in the schema (`name.to_string()`), serde drops it; type names are not compared
+example : (callTree (.dstruct ⟨true, ascii "Type"⟩ (.named [.mk ⟨true, ascii "fn"⟩ (.uint .w8)]))
+      (.list [.nat 1])).map
+    (fun c => (c, conforms c (schemaOf true
+      (.dstruct ⟨true, ascii "Type"⟩ (.named [.mk ⟨true, ascii "fn"⟩ (.uint .w8)]))))) =
+    some (.struct (ascii "Type") [ascii "fn"] [.u .w8 1], true) := by rfl
+example : schemaOf true (.dstruct ⟨true, ascii "Type"⟩ (.named [.mk ⟨true, ascii "fn"⟩ (.uint .w8)]))
+    = .struct (ascii "r#Type") (.struct [.mk (ascii "fn") .u8]) := by rfl
 
 /-! ## 2. a reader that knows only the schema -/
 
@@ -179,8 +240,8 @@ is given nothing but `T::SCHEMA` parses the postcard encoding of the value and
 consumes it exactly. -/
 theorem schema_describes_serialize (r : RTy) (v : RV) (c : CT) (hwf : RTy.wf r = true)
     (h : callTree r v = some c) (rest : List Byte) :
-    schemaRead (schemaOf r) (enc c.erase ++ rest) = .ok (c.erase, rest) :=
-  schema_reader_bytes c (schemaOf r) (schema_conforms_partial r v c hwf h)
+    schemaRead (schemaOf true r) (enc c.erase ++ rest) = .ok (c.erase, rest) :=
+  schema_reader_bytes c (schemaOf true r) (schema_conforms r v c hwf h)
     (callTree_wfVal r v c h) rest
 
 /-! ## 4. non-vacuity: concrete types
@@ -216,22 +277,22 @@ example : RTy.wf point = true ∧ RTy.wf en = true ∧ RTy.wf gen = true ∧ RTy
   decide
 
 -- SCHEMA: Struct { name: "Point", data: Struct([NamedField { name: "x", ty: I32 }, { "y", I32 }]) }
-example : schemaOf point =
+example : schemaOf true point =
     .struct (ascii "Point") (.struct [.mk (ascii "x") .i32, .mk (ascii "y") .i32]) := by rfl
 -- CALLS: struct[Point,2](x=i32(1), y=i32(-1));  BYTES: [2, 1]
 example : callTree point (.list [.int 1, .int (-1)]) =
     some (.struct (ascii "Point") [ascii "x", ascii "y"] [.i .w32 1, .i .w32 (-1)]) := by rfl
-example : (callTree point (.list [.int 1, .int (-1)])).map (conforms · (schemaOf point))
+example : (callTree point (.list [.int 1, .int (-1)])).map (conforms · (schemaOf true point))
     = some true := by decide
 example : (callTree point (.list [.int 1, .int (-1)])).map (fun c => enc c.erase)
     = some [2, 1] := by decide
-example : schemaRead (schemaOf point) [2, 1, 7] = .ok (.struct [.i .w32 1, .i .w32 (-1)], [7]) := by
+example : schemaRead (schemaOf true point) [2, 1, 7] = .ok (.struct [.i .w32 1, .i .w32 (-1)], [7]) := by
   rfl
 
 -- all four variant kinds (+ the empty tuple / empty struct variants)
-example : schemaOf en = .enum (ascii "En")
+example : schemaOf true en = .enum (ascii "En")
     [.mk (ascii "A") .unit, .mk (ascii "B") (.newtype .u8), .mk (ascii "C") (.tuple [.u8, .u16]),
-     .mk (ascii "D") (.struct [.mk (ascii "p") (schemaOf point), .mk (ascii "q") .bool]),
+     .mk (ascii "D") (.struct [.mk (ascii "p") (schemaOf true point), .mk (ascii "q") .bool]),
      .mk (ascii "E") (.tuple []), .mk (ascii "F") (.struct [])] := by rfl
 -- CALLS: unit_variant[En,0,A]; newtype_variant[En,1,B](u8(1)); tuple_variant[En,2,C,2](u8(1), u16(2));
 --        struct_variant[En,3,D,2](p=struct[Point,2](x=i32(0), y=i32(0)), q=bool(true));
@@ -251,7 +312,7 @@ example : callTree en (.variant 5 []) =
     some (.structVariant (ascii "En") 5 (ascii "F") [] []) := by rfl
 example : ∀ v ∈ [RV.variant 0 [], .variant 1 [.nat 1], .variant 2 [.nat 1, .nat 2],
       .variant 3 [.list [.int 0, .int 0], .bool true], .variant 4 [], .variant 5 []],
-    (callTree en v).map (conforms · (schemaOf en)) = some true := by decide
+    (callTree en v).map (conforms · (schemaOf true en)) = some true := by decide
 -- BYTES: [0]; [1, 1]; [2, 1, 2]; [3, 0, 0, 1]; [4]; [5]
 example : [RV.variant 0 [], .variant 1 [.nat 1], .variant 2 [.nat 1, .nat 2],
       .variant 3 [.list [.int 0, .int 0], .bool true], .variant 4 [], .variant 5 []].map
@@ -266,47 +327,47 @@ example : callTree gen (.list [.nat 1, .some (.list [.nat 2])]) =
     some (.struct (ascii "Gen") [ascii "a", ascii "b"]
       [.u .w8 1, .some (.newtypeStruct (ascii "NT") (.u .w16 2))]) := by rfl
 example : (callTree gen (.list [.nat 1, .some (.list [.nat 2])])).map
-    (fun c => (conforms c (schemaOf gen), enc c.erase)) = some (true, [1, 1, 2]) := by decide
+    (fun c => (conforms c (schemaOf true gen), enc c.erase)) = some (true, [1, 1, 2]) := by decide
 -- CALLS: struct[Lt,2](s=str("a"), b=seq[Some(1)](u8(1)));  BYTES: [1, 97, 1, 1]
 example : (callTree lt (.list [.text [97], .list [.nat 1]])).map
-    (fun c => (conforms c (schemaOf lt), enc c.erase)) = some (true, [1, 97, 1, 1]) := by decide
+    (fun c => (conforms c (schemaOf true lt), enc c.erase)) = some (true, [1, 97, 1, 1]) := by decide
 
 -- `Vec<Option<u16>>`: SCHEMA Seq(Option(U16)); CALLS seq[Some(2)](some(u16(1)), none); BYTES [2,1,1,0]
-example : schemaOf (.vec (.option (.uint .w16))) = .seq (.option .u16) := by rfl
+example : schemaOf true (.vec (.option (.uint .w16))) = .seq (.option .u16) := by rfl
 example : callTree (.vec (.option (.uint .w16))) (.list [.some (.nat 1), .none]) =
     some (.seq [.some (.u .w16 1), .none]) := by rfl
 example : (callTree (.vec (.option (.uint .w16))) (.list [.some (.nat 1), .none])).map
     (fun c => (conforms c (.seq (.option .u16)), enc c.erase)) = some (true, [2, 1, 1, 0]) := by
   decide
 -- `[u8; 3]`: SCHEMA Tuple([U8, U8, U8]); CALLS tuple[3](u8(1), u8(2), u8(3)); BYTES [1, 2, 3]
-example : schemaOf (.array (.uint .w8) 3) = .tuple [.u8, .u8, .u8] := by rfl
+example : schemaOf true (.array (.uint .w8) 3) = .tuple [.u8, .u8, .u8] := by rfl
 example : (callTree (.array (.uint .w8) 3) (.list [.nat 1, .nat 2, .nat 3])).map
     (fun c => (conforms c (.tuple [.u8, .u8, .u8]), enc c.erase)) = some (true, [1, 2, 3]) := by
   decide
 example : callTree (.array (.uint .w8) 3) (.list [.nat 1, .nat 2]) = none := by decide
 -- `[u8; 0]`: SCHEMA Tuple([]); CALLS tuple[0](); BYTES []
 example : (callTree (.array (.uint .w8) 0) (.list [])).map
-    (fun c => (c, conforms c (schemaOf (.array (.uint .w8) 0)))) = some (.tuple [], true) := by
+    (fun c => (c, conforms c (schemaOf true (.array (.uint .w8) 0)))) = some (.tuple [], true) := by
   rfl
 -- `(u8,)`: SCHEMA Tuple([U8]); CALLS tuple[1](u8(1)); BYTES [1]
-example : schemaOf (.tuple [.uint .w8]) = .tuple [.u8] := by rfl
+example : schemaOf true (.tuple [.uint .w8]) = .tuple [.u8] := by rfl
 example : callTree (.tuple [.uint .w8]) (.list [.nat 1]) = some (.tuple [.u .w8 1]) := by rfl
 example : conforms (.tuple [.u .w8 1]) (.tuple [.u8]) = true := by decide
 -- `Result<u8, i8>`: SCHEMA Enum { name: "Result<T, E>", [Ok: Newtype(U8), Err: Newtype(I8)] };
 --   CALLS newtype_variant[Result,1,Err](i8(-1)); BYTES [1, 255]   (type names differ: not compared)
 example : (callTree (.result (.uint .w8) (.sint .w8)) (.variant 1 [.int (-1)])).map
-    (fun c => (c, conforms c (schemaOf (.result (.uint .w8) (.sint .w8))), enc c.erase)) =
+    (fun c => (c, conforms c (schemaOf true (.result (.uint .w8) (.sint .w8))), enc c.erase)) =
     some (.newtypeVariant (ascii "Result") 1 (ascii "Err") (.i .w8 (-1)), true, [1, 255]) := by
   rfl
 -- `Range<u8>`: SCHEMA Struct { name: "Range<T>", Struct([start: U8, end: U8]) };
 --   CALLS struct[Range,2](start=u8(1), end=u8(3)); BYTES [1, 3]
 example : (callTree (.range (.uint .w8)) (.list [.nat 1, .nat 3])).map
-    (fun c => (c, conforms c (schemaOf (.range (.uint .w8))), enc c.erase)) =
+    (fun c => (c, conforms c (schemaOf true (.range (.uint .w8))), enc c.erase)) =
     some (.struct (ascii "Range") [ascii "start", ascii "end"] [.u .w8 1, .u .w8 3], true,
       [1, 3]) := by rfl
 -- `RangeTo<u8>`: CALLS struct[RangeTo,1](end=u8(3))
 example : (callTree (.rangeTo (.uint .w8)) (.list [.nat 3])).map
-    (fun c => (c, conforms c (schemaOf (.rangeTo (.uint .w8))))) =
+    (fun c => (c, conforms c (schemaOf true (.rangeTo (.uint .w8))))) =
     some (.struct (ascii "RangeTo") [ascii "end"] [.u .w8 3], true) := by rfl
 -- `HashMap<(u8,u8), bool>`: SCHEMA Map { key: Tuple([U8, U8]), val: Bool };
 --   CALLS map[Some(1)](k:tuple[2](u8(1), u8(2)), v:bool(true)); BYTES [1, 1, 2, 1]
@@ -316,18 +377,18 @@ example : (callTree (.hashMap (.tuple [.uint .w8, .uint .w8]) .bool)
     some (true, [1, 1, 2, 1]) := by decide
 -- `Uuid`: SCHEMA ByteArray; CALLS bytes([7; 16]); BYTES [16, 7 × 16]
 example : (callTree .uuid (.text (List.replicate 16 7))).map
-    (fun c => (conforms c (schemaOf .uuid), enc c.erase)) =
+    (fun c => (conforms c (schemaOf true .uuid), enc c.erase)) =
     some (true, 16 :: List.replicate 16 7) := by decide
 -- `SMatrix<u8, 2, 3>::new(1,2,3,4,5,6)`: SCHEMA Tuple([U8; 6]);
 --   CALLS tuple[6](u8(1), u8(4), u8(2), u8(5), u8(3), u8(6)); BYTES [1, 4, 2, 5, 3, 6]
 example : (callTree (.matrix (.uint .w8) 2 3)
       (.list [.nat 1, .nat 4, .nat 2, .nat 5, .nat 3, .nat 6])).map
-    (fun c => (conforms c (schemaOf (.matrix (.uint .w8) 2 3)), enc c.erase)) =
+    (fun c => (conforms c (schemaOf true (.matrix (.uint .w8) 2 3)), enc c.erase)) =
     some (true, [1, 4, 2, 5, 3, 6]) := by decide
 -- `Key`: SCHEMA Struct { name: "Key", data: Newtype(Tuple([U8; 8])) };
 --   CALLS newtype_struct[Key](tuple[8](u8 …)); BYTES the 8 bytes
 example : (callTree .key (.text [142, 119, 141, 181, 7, 11, 241, 8])).map
-    (fun c => (conforms c (schemaOf .key), enc c.erase)) =
+    (fun c => (conforms c (schemaOf true .key), enc c.erase)) =
     some (true, [142, 119, 141, 181, 7, 11, 241, 8]) := by decide
 -- `DateTime<Utc>`: SCHEMA String; CALLS collect_str("1970-01-01T00:00:00Z"); BYTES [20, …]
 example : (callTree .dateTime (.text (ascii "1970-01-01T00:00:00Z"))).map
@@ -342,7 +403,7 @@ example : callTree .pathBuf (.text [0xff, 0x41]) = none := by decide
 --   CALLS struct_variant[DataModelType,23,Struct,2](name=str("Point"), data=newtype_variant[Data,3,Struct](
 --     seq[Some(2)](struct[NamedField,2](name=str("x"), ty=unit_variant[DataModelType,4,I32]), …)));
 --   BYTES [23, 5, 80, 111, 105, 110, 116, 3, 2, 1, 120, 4, 1, 121, 4]
-example : callTree .dataModelType (.schema (schemaOf point)) =
+example : callTree .dataModelType (.schema (schemaOf true point)) =
     some (.structVariant (ascii "DataModelType") 23 (ascii "Struct") [ascii "name", ascii "data"]
       [.str (ascii "Point"),
        .newtypeVariant (ascii "Data") 3 (ascii "Struct")
@@ -351,19 +412,19 @@ example : callTree .dataModelType (.schema (schemaOf point)) =
                .struct (ascii "NamedField") [ascii "name", ascii "ty"]
                  [.str (ascii "y"), .unitVariant (ascii "DataModelType") 4 (ascii "I32")]])]) := by
   rfl
-example : (callTree .dataModelType (.schema (schemaOf point))).map
+example : (callTree .dataModelType (.schema (schemaOf true point))).map
     (fun c => (conforms c .schema, enc c.erase)) =
     some (true, [23, 5, 80, 111, 105, 110, 116, 3, 2, 1, 120, 4, 1, 121, 4]) := by decide
-example : (callTree .ownedDataModelType (.schema (schemaOf en))).map (conforms · .schema)
+example : (callTree .ownedDataModelType (.schema (schemaOf true en))).map (conforms · .schema)
     = some true := by decide
 example : schemaRead .schema [23, 5, 80, 111, 105, 110, 116, 3, 2, 1, 120, 4, 1, 121, 4, 99] =
-    .ok (serOwned (schemaOf point), [99]) := by rfl
+    .ok (serOwned (schemaOf true point), [99]) := by rfl
 
 -- the theorems apply to the examples
 private def enD : CT :=
   .structVariant (ascii "En") 3 (ascii "D") [ascii "p", ascii "q"]
     [.struct (ascii "Point") [ascii "x", ascii "y"] [.i .w32 0, .i .w32 0], .bool true]
-example : schemaRead (schemaOf en) (enc enD.erase ++ [5, 5]) = .ok (enD.erase, [5, 5]) :=
+example : schemaRead (schemaOf true en) (enc enD.erase ++ [5, 5]) = .ok (enD.erase, [5, 5]) :=
   schema_describes_serialize en (.variant 3 [.list [.int 0, .int 0], .bool true]) enD (by decide)
     (by rfl) [5, 5]
 example : enc enD.erase = [3, 0, 0, 1] ∧ enD.erase =
@@ -390,17 +451,17 @@ example : conforms (.u .w16 1) .u32 = false := by decide
 example : conforms (.struct (ascii "Other") [ascii "x", ascii "y"] [.i .w32 1, .i .w32 2]) pointS
     = true := by decide
 -- wrong variant index / wrong variant name / wrong variant kind / index out of range
-example : conforms (.newtypeVariant (ascii "En") 2 (ascii "B") (.u .w8 1)) (schemaOf en) = false := by
+example : conforms (.newtypeVariant (ascii "En") 2 (ascii "B") (.u .w8 1)) (schemaOf true en) = false := by
   decide
-example : conforms (.newtypeVariant (ascii "En") 1 (ascii "Bee") (.u .w8 1)) (schemaOf en)
+example : conforms (.newtypeVariant (ascii "En") 1 (ascii "Bee") (.u .w8 1)) (schemaOf true en)
     = false := by decide
-example : conforms (.tupleVariant (ascii "En") 1 (ascii "B") [.u .w8 1]) (schemaOf en) = false := by
+example : conforms (.tupleVariant (ascii "En") 1 (ascii "B") [.u .w8 1]) (schemaOf true en) = false := by
   decide
-example : conforms (.unitVariant (ascii "En") 6 (ascii "G")) (schemaOf en) = false := by decide
+example : conforms (.unitVariant (ascii "En") 6 (ascii "G")) (schemaOf true en) = false := by decide
 -- newtype struct vs 1-tuple struct vs 1-tuple
-example : conforms (.tupleStruct (ascii "NT") [.u .w16 5]) (schemaOf nt) = false := by decide
-example : conforms (.newtypeStruct (ascii "NT") (.u .w16 5)) (schemaOf nt) = true := by decide
-example : conforms (.u .w16 5) (schemaOf nt) = false := by decide
+example : conforms (.tupleStruct (ascii "NT") [.u .w16 5]) (schemaOf true nt) = false := by decide
+example : conforms (.newtypeStruct (ascii "NT") (.u .w16 5)) (schemaOf true nt) = true := by decide
+example : conforms (.u .w16 5) (schemaOf true nt) = false := by decide
 example : conforms (.u .w8 1) (.tuple [.u8]) = false := by decide
 example : conforms (.tuple [.u .w8 1]) (.tuple [.u8]) = true := by decide
 -- seq vs tuple (`Vec<u8>` vs `[u8; 2]`), bytes vs seq of u8, str vs bytes
@@ -425,7 +486,7 @@ example : conforms (.u .w64 5) .usize = true ∧ conforms (.i .w64 5) .isize = t
     conforms (.u .w32 5) .usize = false := by decide
 -- the reader does fail on non-conforming input
 example : schemaRead pointS [2] = .error .unexpectedEnd := by rfl
-example : schemaRead (schemaOf en) [6] = .error .custom := by rfl
+example : schemaRead (schemaOf true en) [6] = .error .custom := by rfl
 example : schemaRead (.option .bool) [2] = .error .badOption := by rfl
 -- out of scope: arity-7 tuples, `[T; 33]`
 example : RTy.wf (.tuple (List.replicate 7 .bool)) = false ∧ RTy.wf (.tuple []) = false ∧
